@@ -10,7 +10,7 @@ import (
 
 // C01 — resource values survive a marshal/unmarshal round trip.
 
-var c01IDs = []string{"a", "a b", "<&>\"\\", "x\x00y", "é", "日本", longStr, "1", "a/b?c=d&e#f%20", " "}
+var c01IDs = []string{"a", "\x1b\x7f\U000E0001", "a b", "<&>\"\\", "x\x00y", "é", "日本", longStr, "1", "a/b?c=d&e#f%20", " "}
 
 // roundTrip marshals res (all fields, all relationship data) and unmarshals it
 // against schema through the resource path (doc=false) or the document path.
@@ -167,9 +167,11 @@ func c01Rel(x *mc.Exec) {
 	id := c01IDs[x.Choose(len(c01IDs), "id")]
 	soft := x.Choose(2, "impl") == 0
 	softU := x.Choose(2, "impl-other") == 0
-	ones := []string{"", "o", "a b", "<&>", "日本"}
+	ones := []string{"", "o", "a b", "<&>", "日本", "\x01\x7f\U000E0001"}
 	one := ones[x.Choose(len(ones), "to-one")]
-	pool := []string{"a", "b", "c"}
+	// includes ids that JSON must escape (control characters, DEL, a
+	// non-printable supplementary-plane rune, quote and backslash)
+	pool := []string{"a", "b", "c\x01\x7f", "\a\v\x00\U000E0001\"\\é"}
 	n := x.Choose(4, "to-many len")
 	many := []string{}
 	for i := 0; i < n; i++ {
